@@ -19,6 +19,7 @@ func genEndPlan(seed uint64, thorough bool) *Plan {
 	p.Knobs.Sticky = []int{0, 30, 60}[g.r.IntN(3)]
 	p.Knobs.Stall = []int{0, 20, 20, 40}[g.r.IntN(4)]
 	p.Knobs.PCT = []int{0, 0, 0, 2, 3}[g.r.IntN(5)]
+	p.Knobs.UnlockYield = g.chance(2)
 	bcmd := func(k, to string) []string {
 		switch g.r.IntN(5) {
 		case 0:
